@@ -3,6 +3,7 @@ import json
 import os
 import re
 import shutil
+import signal
 import subprocess
 import sys
 import tempfile
@@ -109,14 +110,25 @@ def run_tlc(workdir, module, cfg, workers=None, timeout=1800, extra=(), java_opt
     if java_opts:
         env["JAVA_TOOL_OPTIONS"] = java_opts
     t0 = time.time()
+    # own process group: on a time-out exactly this run's JVM is killed (never another check's)
+    proc = subprocess.Popen(cmd, cwd=workdir, stdout=subprocess.PIPE, stderr=subprocess.STDOUT, text=True, env=env, start_new_session=True)
     try:
-        p = subprocess.run(cmd, cwd=workdir, capture_output=True, text=True, timeout=timeout, env=env)
+        stdout, _ = proc.communicate(timeout=timeout)
     except subprocess.TimeoutExpired:
-        subprocess.run(["pkill", "-f", "tlc2.TL[C]"], capture_output=True)
+        try:
+            os.killpg(proc.pid, signal.SIGKILL)
+        except OSError:
+            pass
+        proc.wait()
         raise Inconclusive("TLC timed out after %ds: %s" % (timeout, " ".join(cmd)))
     finally:
         shutil.rmtree(md, ignore_errors=True)
-    out = p.stdout + p.stderr
+
+    class _P:
+        pass
+    p = _P()
+    p.returncode, p.stdout, p.stderr = proc.returncode, stdout, ""
+    out = p.stdout
     res = TLCResult(out, p.returncode, time.time() - t0)
     if "java.lang.OutOfMemoryError" in out or ("StackOverflowError" in out and not res.violated):
         raise Inconclusive("TLC resource failure:\n" + out[-2000:])
